@@ -51,6 +51,9 @@ EXPLANATION += ' R13 treats `next(lit, default)` inside a record like a tolerant
 TECHNIQUE += '; generator evaluation of the frame loops with a recording frame parser'
 EXPLANATION += " R6: each frame-concatenation load_many is interpreted to its end on a model line iterator with the frame parser replaced by a recorder (one line per frame, a marked dictionary as result): it yields exactly the parser's results, in order, and hands on the iterator and its own arguments -- whether the yield is written `yield load_one(...)` or through a local. The look-ahead rules (R7 / R11) stop at the first call of the frame parser, wherever it stands."
 # --- end metadata round-2 twins
+# --- metadata added after the round-4 refactoring twins
+EXPLANATION += " R9: the length of the materialised zip may be kept in a local before it is compared / announced. R16 (added): two frames written by the module's dump_many come back from its load_many as two frames in order (XYZ, SDF, MOL2, PDB evaluated as wholes on model molecules of 2 and 3 atoms)."
+# --- end metadata round-4 twins
 
 
 def run(ctx):
